@@ -372,7 +372,7 @@ def _task17_word(params):
     return viol, cnt
 
 
-AFFIXES = ['a', 'ab', 'a.b', 'a+b', 'a|b', '1', 'b$a', 'a(b', 'a[b]a', 'a\\b']
+AFFIXES = ['a', 'b', 'ab', 'a.b', 'a+b', 'a|b', '1', 'b$a', 'a(b', 'a[b]a', 'a\\b']
 
 
 def _is_w(s, gl=True):
@@ -463,7 +463,7 @@ def run_C17(run):
     wp = [(lo, hi, gl) for lo in (1, 2, 3) for hi in (1, 2, 3, None) if hi is None or lo <= hi for gl in (True, False)]
     res += common.pmap(_task17_word, common.chunks(wp, 2))
     singles = [(a,) for a in AFFIXES]
-    pairs = [(a, b) for a in AFFIXES[:6] for b in AFFIXES[:6] if a != b]
+    pairs = [(a, b) for a in AFFIXES[:7] for b in AFFIXES[:7] if a != b]
     if run.tier == 'thorough':
         pairs = [(a, b) for a in AFFIXES for b in AFFIXES if a != b]
     res += common.pmap(_task17_affix, common.chunks(singles + pairs, 4))
@@ -615,12 +615,17 @@ def near(fmt):
     return out
 
 
+def hash_free_index(f, g):
+    """a deterministic 0/1 choice per pair (no use of hash())"""
+    return sum(map(ord, f + g))
+
+
 def _task19_pairs(arg):
     pairs = arg
     viol = []
     cnt = {'pair_patterns': 0, 'pair_candidates': 0}
-    for f, g in pairs:
-        expr = f"Date([{f!r}, {g!r}])"
+    for f, g, ext in [(f, g, e) for f, g in pairs for e in (False, True)]:
+        expr = f"Date([{f!r}, {g!r}]{', is_extensible=True' if ext else ''})"
         try:
             p = _mk(expr)
             cre = re.compile(str(p), rx.FLAGS)
@@ -634,7 +639,7 @@ def _task19_pairs(arg):
             t = a + s1 + b + s2 + c
             cnt['pair_candidates'] += 1
             want = date_model(f, a, s1, b, s2, c) or date_model(g, a, s1, b, s2, c)
-            got = cre.fullmatch(t) is not None
+            got = p.is_exact_match(t)
             if got != want and bad < 2:
                 bad += 1
                 viol.append(V(f'C19|{expr}|{t}', f"{expr}.is_exact_match({t!r}) is {got}, expected {want}",
